@@ -145,7 +145,23 @@ func runC17(c *Ctx) {
 				continue
 			}
 			call := isMethod(ast.Unparen(cond), "IsEqual")
-			if call == nil {
+			// `recognised || !allowed`: when the scan is one alternative of the condition, the true
+			// edge is taken whenever the scan succeeds
+			conds := []ast.Expr{cond}
+			for i := 0; i < len(conds); i++ {
+				if be, isBin := ast.Unparen(conds[i]).(*ast.BinaryExpr); isBin && be.Op == token.LOR {
+					conds = append(conds, be.X, be.Y)
+				}
+			}
+			for _, alt := range conds {
+				if call != nil {
+					break
+				}
+				cond := alt
+				call = isMethod(ast.Unparen(cond), "IsEqual")
+				if call != nil {
+					break
+				}
 				// the scan written as slices.ContainsFunc(list, func(x T) bool { return c.IsEqual(dst, …) })
 				if cf, isCall := ast.Unparen(cond).(*ast.CallExpr); isCall && len(cf.Args) == 2 {
 					if fn := Callee(info, cf); fn != nil && fn.Pkg() != nil && fn.Pkg().Path() == "slices" && fn.Name() == "ContainsFunc" {
